@@ -96,6 +96,18 @@ def jobs(seed=0):
                      defines={"RS": rs, "REXT": rs, "RM": st[0], "RA": st[1], "GQ": 0},
                      cbmc_flags=["--unwind", str(rs + 2), "--unwinding-assertions"], functions=["vec_znx_zero_ref"],
                      bound_note="res limbs %d" % rs, replay={"driver": "vec_znx", "fn": "vec_znx_zero_ref"}))
+    NQ = [(0, 0), (0, 1), (1, 0), (1, 1), (1, 2), (2, 1), (2, 2), (0, 2), (2, 0), (1, 3), (3, 1)]
+    for n, (rs, as_) in enumerate(NQ):
+        sp = stride_pick(seed, 2, n)
+        J.append(norm_job(rs, as_, (sp[0], sp[1]), 0, "quick"))
+    for n, (rs, as_) in enumerate([(1, 1), (2, 2), (1, 2), (2, 1)]):
+        sp = stride_pick(seed, 2, n + 1)
+        J.append(norm_job(rs, as_, (sp[0], sp[1]), 1, "quick"))
+    for n, (rs, as_) in enumerate([(2, 3), (3, 2), (3, 3), (0, 3), (3, 0)]):
+        sp = stride_pick(seed, 2, n)
+        j = norm_job(rs, as_, (sp[0], sp[1]), 0, "thorough")
+        j.timeout = 3000
+        J.append(j)
     names = set()
     out = []
     for j in J:
@@ -104,3 +116,28 @@ def jobs(seed=0):
         names.add(j.name)
         out.append(j)
     return out
+
+
+# ---------------------------------------------------------------------------------------------------------------
+# vec_znx_normalize_base2k_ref (C05, S3): znx_normalize and znx_zero replaced by their contracts
+
+def norm_job(rs, as_, st, alias, tier, k=None, gq=0):
+    (rm, ra), (am, aa) = st
+    if alias == 1:
+        am, aa = rm, ra
+    rext = max(rs, as_) if alias == 1 else rs
+    d = {"RS": rs, "AS": as_, "REXT": rext, "RM": rm, "RA": ra, "AM": am, "AA": aa, "ALIAS": alias, "GQ": gq}
+    nm = "vecnorm.ref.r%da%d.s%d%d_%d%d.al%d" % (rs, as_, rm, ra, am, aa, alias)
+    if k is not None:
+        d["NRM_K"] = k
+        nm += ".k%02d" % k
+    return Job(name=nm, props=["C05", "C13", "C11", "C18", "C15"], shape="S3", sources=["arithmetic/vec_znx.c"],
+               harness="vec_norm.c", entry="h_vec_znx_normalize_base2k_ref",
+               enforce=[("vec_znx_normalize_base2k_ref", "vec_znx_normalize__c")],
+               replace=[("znx_normalize", "znx_normalize__c_lean"), K_REF["zero"]], defines=d,
+               cbmc_flags=["--unwind", str(max(rs, as_) + 2), "--unwinding-assertions", "--no-signed-overflow-check",
+                           "--no-undefined-shift-check"],
+               functions=["vec_znx_normalize_base2k_ref"], solver="race", timeout=900, tier=tier,
+               bound_note="limb counts (res,a)=(%d,%d), strides N*%d+%d/N*%d+%d, alias %d, k %s; unbounded in N and data"
+                          % (rs, as_, rm, ra, am, aa, alias, "symbolic 1..62" if k is None else str(k)),
+               replay={"driver": "vec_norm"})
